@@ -79,7 +79,18 @@ def gen_cases(tier, seed):
             res = [float(max(1, round(x))) for x in res]
         if rnd.random() < 0.1:
             res = [int(max(1, round(x))) for x in res]
-        cases.append({"size": size, "resolution": res,
+        inherit = None
+        if rnd.random() < 0.2:
+            # the full-resolution file already carries an encoding / type (hand-edited)
+            inherit = {"encoding": rnd.choice(["compressed_segmentation", "raw", "jpeg"]),
+                       "type": rnd.choice([None, "segmentation", "image"]),
+                       "block": rnd.random() < 0.4}
+        if rnd.random() < 0.12:
+            # sizes just around a power-of-two multiple of the target chunk size
+            ax = rnd.randrange(3)
+            tt = rnd.choice([16, 64, 64, 128])
+            size[ax] = max(1, 2 ** rnd.randint(1, 24) * tt + rnd.choice([-2, -1, 0, 1, 2, 3]))
+        cases.append({"size": size, "resolution": res, "inherit": inherit,
                       "target": rnd.choice([1, 2, 4, 8, 16, 32, 64, 64, 64, 128, 256, 512]),
                       "max_scales": rnd.choice([None, None, None, 1, 2, 3, 5, 10]),
                       "type": rnd.choice([None, "image", "segmentation"]),
@@ -186,14 +197,28 @@ def run_case(case):
     info = {"type": "image", "data_type": case["data_type"], "num_channels": 1,
             "scales": [{"size": list(size), "resolution": list(res),
                         "voxel_offset": [0, 0, 0], "encoding": "raw"}]}
-    ctx = f"size={size} resolution={res} target={T} max_scales={ms}"
+    inh = case.get("inherit")
+    if inh:
+        info["scales"][0]["encoding"] = inh["encoding"]
+        if inh["type"]:
+            info["type"] = inh["type"]
+        else:
+            del info["type"]
+        if inh["block"] and inh["encoding"] == "compressed_segmentation":
+            info["scales"][0]["compressed_segmentation_block_size"] = [4, 4, 4]
+    ctx = f"size={size} resolution={res} target={T} max_scales={ms}" + (
+        f" inherited={inh}" if inh else "")
     d = _delays(res)
     texp = int(math.log2(T))
     excess0 = sum(max(d) - x for x in d) > 3 * texp
     obs = {"infos": 0, "scales": 0, "transitions_executed": 0, "transitions_arith_only": 0,
            "generator_assertions": 0, "cli_runs": 0, "distinct_delay_counts": {
                str(len(set(d))): 1}, "max_scales_cut": 0, "encoder_checks": 0,
-           "fractional_resolution": int(any(float(r) != int(r) for r in res))}
+           "fractional_resolution": int(any(float(r) != int(r) for r in res)),
+           "inherited_encoding": int(bool(inh) and case["encoding"] is None),
+           "near_power_of_two_sizes": int(any(
+               s_ > 64 and min((s_ - d) & (s_ - d - 1) for d in (-2, -1, 0, 1, 2, 3)
+                               if s_ - d > 0) == 0 for s_ in size))}
     v = []
 
     def viol(kind, detail, known=None):
@@ -347,6 +372,14 @@ def run_case(case):
             base = {"type": "image", "data_type": case["data_type"], "num_channels": 1,
                     "scales": [{"size": list(size), "resolution": list(res),
                                 "voxel_offset": [0, 0, 0], "encoding": "raw"}]}
+            if inh:
+                base["scales"][0]["encoding"] = inh["encoding"]
+                if inh["type"]:
+                    base["type"] = inh["type"]
+                else:
+                    del base["type"]
+                if inh["block"] and inh["encoding"] == "compressed_segmentation":
+                    base["scales"][0]["compressed_segmentation_block_size"] = [4, 4, 4]
             with open(src, "w") as fh:
                 json.dump(base, fh)
             argv = ["generate-scales-info", src, os.path.join(top, "out"),
@@ -390,4 +423,6 @@ def gates(obs, tier):
         "one_two_three_distinct_delays": len(obs.get("distinct_delay_counts", {})) == 3,
         "fractional_resolutions": obs.get("fractional_resolution", 0) > 100,
         "encoder_checks": obs.get("encoder_checks", 0) > 1000,
+        "inherited_encodings": obs.get("inherited_encoding", 0) > 50,
+        "sizes_next_to_powers_of_two": obs.get("near_power_of_two_sizes", 0) > 50,
     }
